@@ -212,6 +212,33 @@ def stale_slow_body(sid, api="error", timeout_ms=400):
     return s.done()
 
 
+def final_release(sid, timeout_ms=1000):
+    """invocation 1 is complete (its reservation was released by AwaitRelease) but its Server.Invoke call has not yet
+    made its own final Release; caller 2 arrives, reserves and is dispatched; then the final Release of call 1 runs"""
+    s = Scn(sid, ext=[], timeout_ms=timeout_ms, opWaitMs=6000)
+    s.meta(family=FAMILY, schedule="final-release")
+    s.init()
+    s.await_exec(kind="rt")
+    tags = {"rt": s.poll("rt")}
+    s.round(tags, {})
+    s.hold("server.beforeFinalRelease", 1)
+    i1 = s.invoke(caller=1, size=5, seed=7)
+    s.wait(tags["rt"])
+    s.call("rt", "response", id="current", body="answer-of-request-2")
+    tags["rt"] = s.poll("rt")
+    s.until_held("server.beforeFinalRelease")
+    i2 = s.invoke(caller=2, size=6, seed=8)
+    s.wait(tags["rt"])                          # request 3 is delivered to the runtime
+    s.release("server.beforeFinalRelease")
+    s.wait(i1)
+    s.sleep(30)
+    s.call("rt", "response", id="current", body="answer-of-request-3")
+    tags["rt"] = s.poll("rt")
+    s.wait(i2)
+    s.round(tags, {})
+    return s.done()
+
+
 def double_reset(sid, timeout_ms=400):
     s = Scn(sid, ext=[], timeout_ms=timeout_ms, opWaitMs=8000)
     s.meta(family=FAMILY, schedule="double-reset")
@@ -338,6 +365,7 @@ def scenarios(prefix, which=("watch-late-cancel", "clear-vs-invoke", "ghost-invo
           "register-vs-close": register_vs_close,
           "stale-shutdown": stale_shutdown,
           "stale-failure-record": stale_failure_record,
+          "final-release": final_release,
           "stale-error-slow-body": lambda sid: stale_slow_body(sid, "error"),
           "stale-error-in-flight": lambda sid: stale_in_flight(sid, "error"),
           "stale-response-in-flight": lambda sid: stale_in_flight(sid, "response")}
